@@ -1,7 +1,8 @@
 import PV.Model.Core
 /-!
 Correctness of the model code generator `PV.Core.comp` on the IC10 machine: forward simulation, indexed by the fuel of the
-reference semantics.  `done` ⇒ the machine reaches the line after the statement's code with the same registers and the same
+reference semantics.  `ok e` ⇒ the machine reaches the line where the statement's exit `e` lands (the line after its code;
+the end label of the enclosing loop for `break`; its start label for `continue`) with the same registers and the same
 effect trace; `timeout n` ⇒ after some `k ≥ n` machine steps the machine is in a state with the same trace (so the source
 trace is a prefix of the chip's behaviour, and — the machine being deterministic — vice versa).
 -/
@@ -38,8 +39,8 @@ theorem CodeAt.tail {P : List (Instr Reg V)} {base : Nat} {x : Instr Reg V} {d :
   have : CodeAt P base ([x] ++ d) := by simpa using h
   simpa using this.right
 
-theorem comp_length (lit : Nat → V) (s : Stmt V) (base : Nat) : (comp lit s base).length = size s := by
-  induction s generalizing base with
+theorem comp_length (lit : Nat → V) (s : Stmt V) (base cl bl : Nat) : (comp lit s base cl bl).length = size s := by
+  induction s generalizing base cl bl with
   | seq p q ihp ihq => simp [comp, size, ihp, ihq]
   | ite c neg a b p q ihp ihq => simp [comp, size, ihp, ihq, nopI] <;> omega
   | ifThen c neg a b p ihp => simp [comp, size, ihp, nopI]
@@ -105,9 +106,16 @@ end steps
 
 /-! ### the simulation -/
 
+/-- the line at which a statement's exit lands: the next line, or the enclosing loop's end / start label -/
+def land (e : Exit) (next cl bl : Nat) : Nat :=
+  match e with
+  | .norm => next
+  | .brk => bl
+  | .cont => cl
+
 def Claim (sem : Sem V) (env : Env V) (lit : Nat → V) (P : List (Instr Reg V)) (mem : Nat → V) (n : Nat) (s : Stmt V) : Prop :=
-  ∀ (base : Nat) (σ : SSt V), CodeAt P base (comp lit s base) →
-    (∀ σ', exec sem env n s σ = .done σ' → ∃ k, run sem env P k (mk σ mem base) = mk σ' mem (base + size s)) ∧
+  ∀ (base cl bl : Nat) (σ : SSt V), CodeAt P base (comp lit s base cl bl) →
+    (∀ e σ', exec sem env n s σ = .ok e σ' → ∃ k, run sem env P k (mk σ mem base) = mk σ' mem (land e (base + size s) cl bl)) ∧
     (∀ σ', exec sem env n s σ = .timeout σ' → ∃ k pc, n ≤ k ∧ run sem env P k (mk σ mem base) = mk σ' mem pc)
 
 theorem claim_stmt (sem : Sem V) (env : Env V) (lit : Nat → V) (hlit : ∀ n, sem.toAddr (lit n) = some n)
@@ -117,78 +125,116 @@ theorem claim_stmt (sem : Sem V) (env : Env V) (lit : Nat → V) (hlit : ∀ n, 
   intro s
   induction s with
   | alu x op args =>
-    intro _ base σ hc
+    intro _ base cl bl σ hc
     have hi : P[base]? = some ⟨.alu op, some x, args⟩ := by have := hc 0 (by simp [comp]); simpa [comp] using this
-    refine ⟨fun σ' h => ⟨1, ?_⟩, fun σ' h => by simp [exec] at h⟩
-    simp only [exec, Res.done.injEq] at h
-    rw [run_one, step_alu sem env P σ mem base x op args hi, ← h]; rfl
+    refine ⟨fun e σ' h => ⟨1, ?_⟩, fun σ' h => by simp [exec] at h⟩
+    simp only [exec, Res.done, Res.ok.injEq] at h
+    obtain ⟨rfl, rfl⟩ := h
+    rw [run_one, step_alu sem env P σ mem base x op args hi]; rfl
   | load x q args =>
-    intro _ base σ hc
+    intro _ base cl bl σ hc
     have hi : P[base]? = some ⟨.load q, some x, args⟩ := by have := hc 0 (by simp [comp]); simpa [comp] using this
-    refine ⟨fun σ' h => ⟨1, ?_⟩, fun σ' h => by simp [exec] at h⟩
-    simp only [exec, Res.done.injEq] at h
-    rw [run_one, step_load sem env P σ mem base x q args hi, ← h]; rfl
+    refine ⟨fun e σ' h => ⟨1, ?_⟩, fun σ' h => by simp [exec] at h⟩
+    simp only [exec, Res.done, Res.ok.injEq] at h
+    obtain ⟨rfl, rfl⟩ := h
+    rw [run_one, step_load sem env P σ mem base x q args hi]; rfl
   | store q args =>
-    intro _ base σ hc
+    intro _ base cl bl σ hc
     have hi : P[base]? = some ⟨.store q, none, args⟩ := by have := hc 0 (by simp [comp]); simpa [comp] using this
-    refine ⟨fun σ' h => ⟨1, ?_⟩, fun σ' h => by simp [exec] at h⟩
-    simp only [exec, Res.done.injEq] at h
-    rw [run_one, step_store sem env P σ mem base q args hi, ← h]; rfl
+    refine ⟨fun e σ' h => ⟨1, ?_⟩, fun σ' h => by simp [exec] at h⟩
+    simp only [exec, Res.done, Res.ok.injEq] at h
+    obtain ⟨rfl, rfl⟩ := h
+    rw [run_one, step_store sem env P σ mem base q args hi]; rfl
   | yield =>
-    intro _ base σ hc
+    intro _ base cl bl σ hc
     have hi : P[base]? = some ⟨.yield, none, []⟩ := by have := hc 0 (by simp [comp]); simpa [comp] using this
-    refine ⟨fun σ' h => ⟨1, ?_⟩, fun σ' h => by simp [exec] at h⟩
-    simp only [exec, Res.done.injEq] at h
-    rw [run_one, step_yield sem env P σ mem base hi, ← h]; rfl
+    refine ⟨fun e σ' h => ⟨1, ?_⟩, fun σ' h => by simp [exec] at h⟩
+    simp only [exec, Res.done, Res.ok.injEq] at h
+    obtain ⟨rfl, rfl⟩ := h
+    rw [run_one, step_yield sem env P σ mem base hi]; rfl
   | sleep a =>
-    intro _ base σ hc
+    intro _ base cl bl σ hc
     have hi : P[base]? = some ⟨.sleep, none, [a]⟩ := by have := hc 0 (by simp [comp]); simpa [comp] using this
-    refine ⟨fun σ' h => ⟨1, ?_⟩, fun σ' h => by simp [exec] at h⟩
-    simp only [exec, Res.done.injEq] at h
-    rw [run_one, step_sleep sem env P σ mem base a hi, ← h]; rfl
+    refine ⟨fun e σ' h => ⟨1, ?_⟩, fun σ' h => by simp [exec] at h⟩
+    simp only [exec, Res.done, Res.ok.injEq] at h
+    obtain ⟨rfl, rfl⟩ := h
+    rw [run_one, step_sleep sem env P σ mem base a hi]; rfl
   | skip =>
-    intro _ base σ hc
-    refine ⟨fun σ' h => ⟨0, ?_⟩, fun σ' h => by simp [exec] at h⟩
-    simp only [exec, Res.done.injEq] at h
-    simp [run, size, h]
+    intro _ base cl bl σ hc
+    refine ⟨fun e σ' h => ⟨0, ?_⟩, fun σ' h => by simp [exec] at h⟩
+    simp only [exec, Res.done, Res.ok.injEq] at h
+    obtain ⟨rfl, rfl⟩ := h
+    simp [run, size, land]
+  | brk =>
+    intro _ base cl bl σ hc
+    have hi : P[base]? = some ⟨.jmp, none, [.num (lit bl)]⟩ := by have := hc 0 (by simp [comp]); simpa [comp] using this
+    refine ⟨fun e σ' h => ⟨1, ?_⟩, fun σ' h => by simp [exec] at h⟩
+    simp only [exec, Res.ok.injEq] at h
+    obtain ⟨rfl, rfl⟩ := h
+    rw [run_one, step_jmp sem env P σ mem base lit bl (hlit _) hi]; rfl
+  | cont =>
+    intro _ base cl bl σ hc
+    have hi : P[base]? = some ⟨.jmp, none, [.num (lit cl)]⟩ := by have := hc 0 (by simp [comp]); simpa [comp] using this
+    refine ⟨fun e σ' h => ⟨1, ?_⟩, fun σ' h => by simp [exec] at h⟩
+    simp only [exec, Res.ok.injEq] at h
+    obtain ⟨rfl, rfl⟩ := h
+    rw [run_one, step_jmp sem env P σ mem base lit cl (hlit _) hi]; rfl
   | seq p q ihp ihq =>
-    intro hn base σ hc
+    intro hn base cl bl σ hc
     obtain ⟨hnp, hnq⟩ := hn
     simp only [comp] at hc
     have hcp := hc.left
     have hcq := hc.right
     rw [comp_length] at hcq
     constructor
-    · intro σ' h
+    · intro e σ' h
       simp only [exec] at h
       cases hp : exec sem env n p σ with
-      | done σ1 =>
+      | ok e1 σ1 =>
         rw [hp] at h
-        obtain ⟨k1, hk1⟩ := (ihp hnp base σ hcp).1 σ1 hp
-        obtain ⟨k2, hk2⟩ := (ihq hnq (base + size p) σ1 hcq).1 σ' h
-        exact ⟨k1 + k2, by rw [run_add, hk1, hk2, size, Nat.add_assoc]⟩
+        obtain ⟨k1, hk1⟩ := (ihp hnp base cl bl σ hcp).1 e1 σ1 hp
+        cases e1 with
+        | norm =>
+          simp only [land] at hk1
+          simp only at h
+          obtain ⟨k2, hk2⟩ := (ihq hnq (base + size p) cl bl σ1 hcq).1 e σ' h
+          exact ⟨k1 + k2, by rw [run_add, hk1, hk2, size, Nat.add_assoc]⟩
+        | brk =>
+          simp only [Res.ok.injEq] at h
+          obtain ⟨rfl, rfl⟩ := h
+          exact ⟨k1, hk1⟩
+        | cont =>
+          simp only [Res.ok.injEq] at h
+          obtain ⟨rfl, rfl⟩ := h
+          exact ⟨k1, hk1⟩
       | timeout σ1 => rw [hp] at h; simp at h
     · intro σ' h
       simp only [exec] at h
       cases hp : exec sem env n p σ with
-      | done σ1 =>
+      | ok e1 σ1 =>
         rw [hp] at h
-        obtain ⟨k1, hk1⟩ := (ihp hnp base σ hcp).1 σ1 hp
-        obtain ⟨k2, pc, hle, hk2⟩ := (ihq hnq (base + size p) σ1 hcq).2 σ' h
-        exact ⟨k1 + k2, pc, by omega, by rw [run_add, hk1, hk2]⟩
+        obtain ⟨k1, hk1⟩ := (ihp hnp base cl bl σ hcp).1 e1 σ1 hp
+        cases e1 with
+        | norm =>
+          simp only [land] at hk1
+          simp only at h
+          obtain ⟨k2, pc, hle, hk2⟩ := (ihq hnq (base + size p) cl bl σ1 hcq).2 σ' h
+          exact ⟨k1 + k2, pc, by omega, by rw [run_add, hk1, hk2]⟩
+        | brk => simp at h
+        | cont => simp at h
       | timeout σ1 =>
         rw [hp] at h
         simp only [Res.timeout.injEq] at h
-        obtain ⟨k1, pc, hle, hk1⟩ := (ihp hnp base σ hcp).2 σ1 hp
+        obtain ⟨k1, pc, hle, hk1⟩ := (ihp hnp base cl bl σ hcp).2 σ1 hp
         exact ⟨k1, pc, hle, by rw [hk1, h]⟩
   | ite c neg a b p q ihp ihq =>
-    intro hn base σ hc
+    intro hn base cl bl σ hc
     obtain ⟨hneg, hnp, hnq⟩ := hn
     -- layout: br ; p ; jmp ; nop ; q ; nop
     have hbr : P[base]? = some ⟨.br neg, none, [a, b, .num (lit (base + size p + 2))]⟩ := by
       have := hc 0 (by simp [comp]); simpa [comp] using this
-    have hcode : CodeAt P base ([⟨.br neg, none, [a, b, .num (lit (base + size p + 2))]⟩] ++ (comp lit p (base + 1) ++
-        ([⟨.jmp, none, [.num (lit (base + size p + size q + 3))]⟩, nopI] ++ (comp lit q (base + size p + 3) ++ [nopI])))) := by
+    have hcode : CodeAt P base ([⟨.br neg, none, [a, b, .num (lit (base + size p + 2))]⟩] ++ (comp lit p (base + 1) cl bl ++
+        ([⟨.jmp, none, [.num (lit (base + size p + size q + 3))]⟩, nopI] ++ (comp lit q (base + size p + 3) cl bl ++ [nopI])))) := by
       simpa [comp, List.append_assoc] using hc
     have h1 := hcode.right
     simp only [List.length_singleton] at h1
@@ -201,7 +247,7 @@ theorem claim_stmt (sem : Sem V) (env : Env V) (lit : Nat → V) (hlit : ∀ n, 
       have := h2 1 (by simp); simpa using this
     have h3 := h2.right
     simp only [List.length_cons, List.length_nil] at h3
-    have hcq : CodeAt P (base + size p + 3) (comp lit q (base + size p + 3)) := by
+    have hcq : CodeAt P (base + size p + 3) (comp lit q (base + size p + 3) cl bl) := by
       have := h3.left
       have e : base + 1 + size p + (0 + 1 + 1) = base + size p + 3 := by omega
       rw [e] at this; exact this
@@ -224,15 +270,24 @@ theorem claim_stmt (sem : Sem V) (env : Env V) (lit : Nat → V) (hlit : ∀ n, 
         rw [e]; rw [step_nop sem env P σ1 mem _ hend]
         exact congrArg (mk σ1 mem) (by omega)
       constructor
+      · intro e σ' h
+        simp only [exec, hb, if_true] at h
+        obtain ⟨k1, hk1⟩ := (ihp hnp (base + 1) cl bl σ hcp).1 e σ' h
+        cases e with
+        | norm =>
+          simp only [land] at hk1 ⊢
+          refine ⟨1 + (k1 + (1 + 1)), ?_⟩
+          rw [run_add, run_add, run_add, run_one, run_one, run_one, hstep, hk1, hjstep, hestep]
+          exact congrArg (mk _ mem) (by simp only [size]; omega)
+        | brk =>
+          simp only [land] at hk1 ⊢
+          exact ⟨1 + k1, by rw [run_add, run_one, hstep, hk1]⟩
+        | cont =>
+          simp only [land] at hk1 ⊢
+          exact ⟨1 + k1, by rw [run_add, run_one, hstep, hk1]⟩
       · intro σ' h
         simp only [exec, hb, if_true] at h
-        obtain ⟨k1, hk1⟩ := (ihp hnp (base + 1) σ hcp).1 σ' h
-        refine ⟨1 + (k1 + (1 + 1)), ?_⟩
-        rw [run_add, run_add, run_add, run_one, run_one, run_one, hstep, hk1, hjstep, hestep]
-        exact congrArg (mk _ mem) (by simp only [size]; omega)
-      · intro σ' h
-        simp only [exec, hb, if_true] at h
-        obtain ⟨k1, pc, hle, hk1⟩ := (ihp hnp (base + 1) σ hcp).2 σ' h
+        obtain ⟨k1, pc, hle, hk1⟩ := (ihp hnp (base + 1) cl bl σ hcp).2 σ' h
         exact ⟨1 + k1, pc, by omega, by rw [run_add, run_one, hstep, hk1]⟩
     · -- else-branch: the branch is taken to the else label
       have hb' : sem.cond c [a.eval σ.regs, b.eval σ.regs] = false := by simpa using hb
@@ -244,22 +299,31 @@ theorem claim_stmt (sem : Sem V) (env : Env V) (lit : Nat → V) (hlit : ∀ n, 
       have hestep : ∀ σ1 : SSt V, step sem env P (mk σ1 mem (base + size p + 3 + size q)) = mk σ1 mem (base + size p + 3 + size q + 1) :=
         fun σ1 => step_nop sem env P σ1 mem _ hend
       constructor
+      · intro e σ' h
+        simp only [exec, hb', Bool.false_eq_true, if_false] at h
+        obtain ⟨k1, hk1⟩ := (ihq hnq (base + size p + 3) cl bl σ hcq).1 e σ' h
+        cases e with
+        | norm =>
+          simp only [land] at hk1 ⊢
+          refine ⟨1 + (1 + (k1 + 1)), ?_⟩
+          rw [run_add, run_add, run_add, run_one, run_one, run_one, hstep, hlstep, hk1, hestep]
+          exact congrArg (mk _ mem) (by simp only [size]; omega)
+        | brk =>
+          simp only [land] at hk1 ⊢
+          exact ⟨1 + (1 + k1), by rw [run_add, run_add, run_one, run_one, hstep, hlstep, hk1]⟩
+        | cont =>
+          simp only [land] at hk1 ⊢
+          exact ⟨1 + (1 + k1), by rw [run_add, run_add, run_one, run_one, hstep, hlstep, hk1]⟩
       · intro σ' h
         simp only [exec, hb', Bool.false_eq_true, if_false] at h
-        obtain ⟨k1, hk1⟩ := (ihq hnq (base + size p + 3) σ hcq).1 σ' h
-        refine ⟨1 + (1 + (k1 + 1)), ?_⟩
-        rw [run_add, run_add, run_add, run_one, run_one, run_one, hstep, hlstep, hk1, hestep]
-        exact congrArg (mk _ mem) (by simp only [size]; omega)
-      · intro σ' h
-        simp only [exec, hb', Bool.false_eq_true, if_false] at h
-        obtain ⟨k1, pc, hle, hk1⟩ := (ihq hnq (base + size p + 3) σ hcq).2 σ' h
+        obtain ⟨k1, pc, hle, hk1⟩ := (ihq hnq (base + size p + 3) cl bl σ hcq).2 σ' h
         exact ⟨1 + (1 + k1), pc, by omega, by rw [run_add, run_add, run_one, run_one, hstep, hlstep, hk1]⟩
   | ifThen c neg a b p ihp =>
-    intro hn base σ hc
+    intro hn base cl bl σ hc
     obtain ⟨hneg, hnp⟩ := hn
     have hbr : P[base]? = some ⟨.br neg, none, [a, b, .num (lit (base + size p + 1))]⟩ := by
       have := hc 0 (by simp [comp]); simpa [comp] using this
-    have hcode : CodeAt P base ([⟨.br neg, none, [a, b, .num (lit (base + size p + 1))]⟩] ++ (comp lit p (base + 1) ++ [nopI, nopI])) := by
+    have hcode : CodeAt P base ([⟨.br neg, none, [a, b, .num (lit (base + size p + 1))]⟩] ++ (comp lit p (base + 1) cl bl ++ [nopI, nopI])) := by
       simpa [comp, List.append_assoc] using hc
     have h1 := hcode.right
     simp only [List.length_singleton] at h1
@@ -277,33 +341,44 @@ theorem claim_stmt (sem : Sem V) (env : Env V) (lit : Nat → V) (hlit : ∀ n, 
     by_cases hb : sem.cond c [a.eval σ.regs, b.eval σ.regs] = true
     · simp only [hb, Bool.not_true, Bool.false_eq_true, if_false] at hstep
       constructor
+      · intro e σ' h
+        simp only [exec, hb, if_true] at h
+        obtain ⟨k1, hk1⟩ := (ihp hnp (base + 1) cl bl σ hcp).1 e σ' h
+        cases e with
+        | norm =>
+          simp only [land] at hk1 ⊢
+          refine ⟨1 + (k1 + (1 + 1)), ?_⟩
+          rw [run_add, run_add, run_add, run_one, run_one, run_one, hstep, hk1, hn1, hn2]
+          exact congrArg (mk _ mem) (by simp only [size]; omega)
+        | brk =>
+          simp only [land] at hk1 ⊢
+          exact ⟨1 + k1, by rw [run_add, run_one, hstep, hk1]⟩
+        | cont =>
+          simp only [land] at hk1 ⊢
+          exact ⟨1 + k1, by rw [run_add, run_one, hstep, hk1]⟩
       · intro σ' h
         simp only [exec, hb, if_true] at h
-        obtain ⟨k1, hk1⟩ := (ihp hnp (base + 1) σ hcp).1 σ' h
-        refine ⟨1 + (k1 + (1 + 1)), ?_⟩
-        rw [run_add, run_add, run_add, run_one, run_one, run_one, hstep, hk1, hn1, hn2]
-        exact congrArg (mk _ mem) (by simp only [size]; omega)
-      · intro σ' h
-        simp only [exec, hb, if_true] at h
-        obtain ⟨k1, pc, hle, hk1⟩ := (ihp hnp (base + 1) σ hcp).2 σ' h
+        obtain ⟨k1, pc, hle, hk1⟩ := (ihp hnp (base + 1) cl bl σ hcp).2 σ' h
         exact ⟨1 + k1, pc, by omega, by rw [run_add, run_one, hstep, hk1]⟩
     · have hb' : sem.cond c [a.eval σ.regs, b.eval σ.regs] = false := by simpa using hb
       simp only [hb', Bool.not_false, if_true] at hstep
       constructor
-      · intro σ' h
-        simp only [exec, hb', Bool.false_eq_true, if_false, Res.done.injEq] at h
+      · intro e σ' h
+        simp only [exec, hb', Bool.false_eq_true, if_false, Res.done, Res.ok.injEq] at h
+        obtain ⟨rfl, rfl⟩ := h
         refine ⟨1 + (1 + 1), ?_⟩
         rw [run_add, run_add, run_one, run_one, run_one, hstep]
         have e : base + size p + 1 = base + 1 + size p := by omega
-        rw [e, hn1, hn2, ← h]
+        rw [e, hn1, hn2]
+        simp only [land]
         exact congrArg (mk _ mem) (by simp only [size]; omega)
       · intro σ' h
         simp [exec, hb'] at h
   | «while» c neg a b body ih =>
-    intro hn base σ hc
+    intro hn base cl bl σ hc
     obtain ⟨hneg, hnb⟩ := hn
     have hcode : CodeAt P base ([nopI] ++ ([⟨.br neg, none, [a, b, .num (lit (base + size body + 3))]⟩] ++
-        (comp lit body (base + 2) ++ [⟨.jmp, none, [.num (lit base)]⟩, nopI]))) := by
+        (comp lit body (base + 2) base (base + size body + 3) ++ [⟨.jmp, none, [.num (lit base)]⟩, nopI]))) := by
       simpa [comp, List.append_assoc] using hc
     have hlab : P[base]? = some nopI := by have := hcode 0 (by simp); simpa using this
     have h1 := hcode.right
@@ -312,7 +387,7 @@ theorem claim_stmt (sem : Sem V) (env : Env V) (lit : Nat → V) (hlit : ∀ n, 
       have := h1 0 (by simp); simpa using this
     have h2 := h1.right
     simp only [List.length_singleton] at h2
-    have hbody : CodeAt P (base + 2) (comp lit body (base + 2)) := by
+    have hbody : CodeAt P (base + 2) (comp lit body (base + 2) base (base + size body + 3)) := by
       have := h2.left
       have e : base + 1 + 1 = base + 2 := by omega
       rw [e] at this; exact this
@@ -341,57 +416,86 @@ theorem claim_stmt (sem : Sem V) (env : Env V) (lit : Nat → V) (hlit : ∀ n, 
       have e : base + size body + 3 = base + 2 + size body + 1 := by omega
       rw [e, step_nop sem env P σ1 mem _ hend]
       exact congrArg (mk σ1 mem) (by omega)
+    have e2 : base + 1 + 1 = base + 2 := by omega
     cases n with
     | zero =>
-      refine ⟨fun σ' h => by simp [exec] at h, fun σ' h => ?_⟩
+      refine ⟨fun e σ' h => by simp [exec] at h, fun σ' h => ?_⟩
       simp only [exec, Res.timeout.injEq] at h
       exact ⟨0, base, by omega, by simp [run, h]⟩
     | succ m =>
-      have hw := hprev m rfl (.while c neg a b body) ⟨hneg, hnb⟩ base
+      have hw := hprev m rfl (.while c neg a b body) ⟨hneg, hnb⟩ base cl bl
       constructor
-      · intro σ' h
+      · intro e σ' h
         simp only [exec] at h
         by_cases hb : sem.cond c [a.eval σ.regs, b.eval σ.regs] = true
         · rw [if_pos hb] at h
           cases hbd : exec sem env (m + 1) body σ with
-          | done σ1 =>
+          | ok e1 σ1 =>
             rw [hbd] at h
-            obtain ⟨k1, hk1⟩ := (ih hnb (base + 2) σ hbody).1 σ1 hbd
-            obtain ⟨k2, hk2⟩ := (hw σ1 hc).1 σ' h
-            refine ⟨1 + (1 + (k1 + (1 + k2))), ?_⟩
-            rw [run_add, run_add, run_add, run_add, run_one, run_one, run_one, hlstep, hbstep, if_pos hb]
-            have e : base + 1 + 1 = base + 2 := by omega
-            rw [e, hk1, hjstep, hk2]
+            obtain ⟨k1, hk1⟩ := (ih hnb (base + 2) base (base + size body + 3) σ hbody).1 e1 σ1 hbd
+            cases e1 with
+            | norm =>
+              simp only [land] at hk1
+              simp only at h
+              obtain ⟨k2, hk2⟩ := (hw σ1 hc).1 e σ' h
+              refine ⟨1 + (1 + (k1 + (1 + k2))), ?_⟩
+              rw [run_add, run_add, run_add, run_add, run_one, run_one, run_one, hlstep, hbstep, if_pos hb, e2, hk1, hjstep, hk2]
+            | cont =>
+              simp only [land] at hk1
+              simp only at h
+              obtain ⟨k2, hk2⟩ := (hw σ1 hc).1 e σ' h
+              refine ⟨1 + (1 + (k1 + k2)), ?_⟩
+              rw [run_add, run_add, run_add, run_one, run_one, hlstep, hbstep, if_pos hb, e2, hk1, hk2]
+            | brk =>
+              simp only [land] at hk1
+              simp only [Res.done, Res.ok.injEq] at h
+              obtain ⟨rfl, rfl⟩ := h
+              refine ⟨1 + (1 + (k1 + 1)), ?_⟩
+              rw [run_add, run_add, run_add, run_one, run_one, run_one, hlstep, hbstep, if_pos hb, e2, hk1, hestep]
+              simp only [land]
+              exact congrArg (mk _ mem) (by simp only [size]; omega)
           | timeout σ1 => rw [hbd] at h; simp at h
         · have hb' : sem.cond c [a.eval σ.regs, b.eval σ.regs] = false := by simpa using hb
           rw [if_neg hb] at h
-          simp only [Res.done.injEq] at h
+          simp only [Res.done, Res.ok.injEq] at h
+          obtain ⟨rfl, rfl⟩ := h
           refine ⟨1 + (1 + 1), ?_⟩
-          rw [run_add, run_add, run_one, run_one, run_one, hlstep, hbstep, if_neg hb, hestep, ← h]
+          rw [run_add, run_add, run_one, run_one, run_one, hlstep, hbstep, if_neg hb, hestep]
+          simp only [land]
           exact congrArg (mk _ mem) (by simp only [size]; omega)
       · intro σ' h
         simp only [exec] at h
         by_cases hb : sem.cond c [a.eval σ.regs, b.eval σ.regs] = true
         · rw [if_pos hb] at h
-          have e : base + 1 + 1 = base + 2 := by omega
           cases hbd : exec sem env (m + 1) body σ with
-          | done σ1 =>
+          | ok e1 σ1 =>
             rw [hbd] at h
-            obtain ⟨k1, hk1⟩ := (ih hnb (base + 2) σ hbody).1 σ1 hbd
-            obtain ⟨k2, pc, hle, hk2⟩ := (hw σ1 hc).2 σ' h
-            refine ⟨1 + (1 + (k1 + (1 + k2))), pc, by omega, ?_⟩
-            rw [run_add, run_add, run_add, run_add, run_one, run_one, run_one, hlstep, hbstep, if_pos hb, e, hk1, hjstep, hk2]
+            obtain ⟨k1, hk1⟩ := (ih hnb (base + 2) base (base + size body + 3) σ hbody).1 e1 σ1 hbd
+            cases e1 with
+            | norm =>
+              simp only [land] at hk1
+              simp only at h
+              obtain ⟨k2, pc, hle, hk2⟩ := (hw σ1 hc).2 σ' h
+              refine ⟨1 + (1 + (k1 + (1 + k2))), pc, by omega, ?_⟩
+              rw [run_add, run_add, run_add, run_add, run_one, run_one, run_one, hlstep, hbstep, if_pos hb, e2, hk1, hjstep, hk2]
+            | cont =>
+              simp only [land] at hk1
+              simp only at h
+              obtain ⟨k2, pc, hle, hk2⟩ := (hw σ1 hc).2 σ' h
+              refine ⟨1 + (1 + (k1 + k2)), pc, by omega, ?_⟩
+              rw [run_add, run_add, run_add, run_one, run_one, hlstep, hbstep, if_pos hb, e2, hk1, hk2]
+            | brk => simp [Res.done] at h
           | timeout σ1 =>
             rw [hbd] at h
             simp only [Res.timeout.injEq] at h
-            obtain ⟨k1, pc, hle, hk1⟩ := (ih hnb (base + 2) σ hbody).2 σ1 hbd
+            obtain ⟨k1, pc, hle, hk1⟩ := (ih hnb (base + 2) base (base + size body + 3) σ hbody).2 σ1 hbd
             refine ⟨1 + (1 + k1), pc, by omega, ?_⟩
-            rw [run_add, run_add, run_one, run_one, hlstep, hbstep, if_pos hb, e, hk1, h]
+            rw [run_add, run_add, run_one, run_one, hlstep, hbstep, if_pos hb, e2, hk1, h]
         · rw [if_neg hb] at h
-          simp at h
+          simp [Res.done] at h
   | loop body ih =>
-    intro hnb base σ hc
-    have hcode : CodeAt P base ([nopI] ++ (comp lit body (base + 1) ++ [⟨.jmp, none, [.num (lit base)]⟩, nopI])) := by
+    intro hnb base cl bl σ hc
+    have hcode : CodeAt P base ([nopI] ++ (comp lit body (base + 1) base (base + size body + 2) ++ [⟨.jmp, none, [.num (lit base)]⟩, nopI])) := by
       simpa [comp, List.append_assoc] using hc
     have hlab : P[base]? = some nopI := by have := hcode 0 (by simp); simpa using this
     have h1 := hcode.right
@@ -401,40 +505,76 @@ theorem claim_stmt (sem : Sem V) (env : Env V) (lit : Nat → V) (hlit : ∀ n, 
     rw [comp_length] at h2
     have hjmp : P[base + 1 + size body]? = some ⟨.jmp, none, [.num (lit base)]⟩ := by
       have := h2 0 (by simp); simpa using this
+    have hend : P[base + 1 + size body + 1]? = some nopI := by
+      have := h2 1 (by simp); simpa using this
     have hlstep : ∀ σ1 : SSt V, step sem env P (mk σ1 mem base) = mk σ1 mem (base + 1) := fun σ1 => step_nop sem env P σ1 mem _ hlab
     have hjstep : ∀ σ1 : SSt V, step sem env P (mk σ1 mem (base + 1 + size body)) = mk σ1 mem base :=
       fun σ1 => step_jmp sem env P σ1 mem _ lit base (hlit _) hjmp
+    have hestep : ∀ σ1 : SSt V, step sem env P (mk σ1 mem (base + size body + 2)) = mk σ1 mem (base + size body + 3) := by
+      intro σ1
+      have e : base + size body + 2 = base + 1 + size body + 1 := by omega
+      rw [e, step_nop sem env P σ1 mem _ hend]
+      exact congrArg (mk σ1 mem) (by omega)
     cases n with
     | zero =>
-      refine ⟨fun σ' h => by simp [exec] at h, fun σ' h => ?_⟩
+      refine ⟨fun e σ' h => by simp [exec] at h, fun σ' h => ?_⟩
       simp only [exec, Res.timeout.injEq] at h
       exact ⟨0, base, by omega, by simp [run, h]⟩
     | succ m =>
-      have hw := hprev m rfl (.loop body) hnb base
+      have hw := hprev m rfl (.loop body) hnb base cl bl
       constructor
-      · intro σ' h
+      · intro e σ' h
         simp only [exec] at h
         cases hbd : exec sem env (m + 1) body σ with
-        | done σ1 =>
+        | ok e1 σ1 =>
           rw [hbd] at h
-          obtain ⟨k1, hk1⟩ := (ih hnb (base + 1) σ hbody).1 σ1 hbd
-          obtain ⟨k2, hk2⟩ := (hw σ1 hc).1 σ' h
-          refine ⟨1 + (k1 + (1 + k2)), ?_⟩
-          rw [run_add, run_add, run_add, run_one, run_one, hlstep, hk1, hjstep, hk2]
+          obtain ⟨k1, hk1⟩ := (ih hnb (base + 1) base (base + size body + 2) σ hbody).1 e1 σ1 hbd
+          cases e1 with
+          | norm =>
+            simp only [land] at hk1
+            simp only at h
+            obtain ⟨k2, hk2⟩ := (hw σ1 hc).1 e σ' h
+            refine ⟨1 + (k1 + (1 + k2)), ?_⟩
+            rw [run_add, run_add, run_add, run_one, run_one, hlstep, hk1, hjstep, hk2]
+          | cont =>
+            simp only [land] at hk1
+            simp only at h
+            obtain ⟨k2, hk2⟩ := (hw σ1 hc).1 e σ' h
+            refine ⟨1 + (k1 + k2), ?_⟩
+            rw [run_add, run_add, run_one, hlstep, hk1, hk2]
+          | brk =>
+            simp only [land] at hk1
+            simp only [Res.done, Res.ok.injEq] at h
+            obtain ⟨rfl, rfl⟩ := h
+            refine ⟨1 + (k1 + 1), ?_⟩
+            rw [run_add, run_add, run_one, run_one, hlstep, hk1, hestep]
+            simp only [land]
+            exact congrArg (mk _ mem) (by simp only [size]; omega)
         | timeout σ1 => rw [hbd] at h; simp at h
       · intro σ' h
         simp only [exec] at h
         cases hbd : exec sem env (m + 1) body σ with
-        | done σ1 =>
+        | ok e1 σ1 =>
           rw [hbd] at h
-          obtain ⟨k1, hk1⟩ := (ih hnb (base + 1) σ hbody).1 σ1 hbd
-          obtain ⟨k2, pc, hle, hk2⟩ := (hw σ1 hc).2 σ' h
-          refine ⟨1 + (k1 + (1 + k2)), pc, by omega, ?_⟩
-          rw [run_add, run_add, run_add, run_one, run_one, hlstep, hk1, hjstep, hk2]
+          obtain ⟨k1, hk1⟩ := (ih hnb (base + 1) base (base + size body + 2) σ hbody).1 e1 σ1 hbd
+          cases e1 with
+          | norm =>
+            simp only [land] at hk1
+            simp only at h
+            obtain ⟨k2, pc, hle, hk2⟩ := (hw σ1 hc).2 σ' h
+            refine ⟨1 + (k1 + (1 + k2)), pc, by omega, ?_⟩
+            rw [run_add, run_add, run_add, run_one, run_one, hlstep, hk1, hjstep, hk2]
+          | cont =>
+            simp only [land] at hk1
+            simp only at h
+            obtain ⟨k2, pc, hle, hk2⟩ := (hw σ1 hc).2 σ' h
+            refine ⟨1 + (k1 + k2), pc, by omega, ?_⟩
+            rw [run_add, run_add, run_one, hlstep, hk1, hk2]
+          | brk => simp [Res.done] at h
         | timeout σ1 =>
           rw [hbd] at h
           simp only [Res.timeout.injEq] at h
-          obtain ⟨k1, pc, hle, hk1⟩ := (ih hnb (base + 1) σ hbody).2 σ1 hbd
+          obtain ⟨k1, pc, hle, hk1⟩ := (ih hnb (base + 1) base (base + size body + 2) σ hbody).2 σ1 hbd
           refine ⟨1 + k1, pc, by omega, ?_⟩
           rw [run_add, run_one, hlstep, hk1, h]
 
